@@ -18,15 +18,15 @@ CONSTANTS MCToks
 MCNames == {"a", "b", "c", "d"}
 MCHome  == [n \in MCNames \cup {LF, AT} |-> CASE n = "d" -> 1 [] n = LF -> 3 [] n = AT -> 2 [] OTHER -> 0]   \* a b c collide
 MCInit  == <<"a", "b">>                              \* a probe chain exists from the start; 3 of 4 slots live
-MCInitTok == [n \in {"a", "b"} |-> "t1"]
+MCInitTok == [n \in {"a", "b"} |-> "t0"]
 \* small layout model: two names, more calls, real-ish file size
 LNames == {"a", "b"}
 LHome  == [n \in LNames \cup {LF, AT} |-> 0]
 LInit  == <<"a">>
-LInitTok == [n \in {"a"} |-> "t1"]
+LInitTok == [n \in {"a"} |-> "t0"]
 
-CallAdd    == \E n \in UNames, c \in MCToks, rep \in BOOLEAN : BeginAdd(n, c, rep, "none")
-CallAddFix == \E n \in UNames, c \in MCToks : BeginAdd(n, c, TRUE, "fix")
+CallAdd    == \E n \in UNames, c \in MCToks, rep \in BOOLEAN, enc \in {"none", "enc"} : BeginAdd(n, c, rep, enc, "zlib")
+CallAddFix == \E n \in UNames, c \in MCToks : BeginAdd(n, c, TRUE, "fix", "none")
 CallRemove == \E n \in UNames : BeginRemove(n)
 CallRename == \E a \in UNames, b \in UNames : BeginRename(a, b)
 
@@ -43,7 +43,7 @@ Termination == (pc # "idle") ~> (pc = "idle")
 (* ---------------- refinement mapping ---------------- *)
 SessBar  == IF pc = "idle" THEN SessView ELSE hsnap
 ExtraBar == Cardinality({i \in Slots : hslots[i].st = "O" /\ hslots[i].nm \in {LF, AT}})
-Abs == INSTANCE MpqMap WITH Names <- UNames, Toks <- MCToks \cup {Bad},
+Abs == INSTANCE MpqMap WITH Names <- UNames, Toks <- MCToks \cup BadToks \cup {"t0"},
                             vdisk <- DiskView, vsess <- SessBar, vopen <- wopen, vdirty <- wdirty,
                             vcap <- H, vextra <- ExtraBar
 AbsSpec == /\ Abs!MapInit(View(StartSlots, StartBlocks, {}), H, (IF HasLF0 THEN 1 ELSE 0) + (IF HasAT0 THEN 1 ELSE 0))
